@@ -15,7 +15,7 @@ func verifH_C19_conv() {
 	nsrc := ncols + 1
 	row := make([]string, nsrc)
 	for i := range row {
-		row[i] = verifField("f", verifChoice("class", 4), flen)
+		row[i] = verifField("f", verifChoice("class", verifParam("classes", 4)), flen)
 	}
 	for i := 0; i < ncols; i++ {
 		cfg.dstCols = append(cfg.dstCols, string(rune('a'+i)))
